@@ -25,7 +25,7 @@ DIMS = {
     "fmt": ["glyf_colr_1", "cff_colr_1", "cff2_colr_1"],
     "outline": ["ell", "tri", "blob", "quad", "oval", "ring"],
     "stack": ["base", "one", "three", "three_rev", "four"],
-    "place": ["t", "id", "r90", "r180", "r30", "r45", "r1", "mx", "my", "md", "s2", "s05", "nu", "nu2", "sk", "out", "tiny", "near", "off05", "far"],
+    "place": ["t", "id", "r90", "r180", "r30", "r45", "r1", "mx", "my", "md", "s2", "s05", "nu", "nu2", "sk", "out", "tiny", "tinycopy", "near", "off05", "far"],
     "donor_paint": ["red", "rgba", "rgba_op", "named", "omitted", "opacity", "current", "current_op", "var", "var_op"],
     "copy_paint": ["blue", "same", "black", "alpha", "current", "var", "lin_bbox", "lin_user", "rad_bbox", "rad_focal_fr"],
     "twin": ["none", "same_glyph", "cross_glyph"],
@@ -131,8 +131,8 @@ def mk(a):
     ox, oy = vb[0], vb[1]
     S = lambda m: aff.mul((1, 0, 0, 1, ox, oy), aff.mul(aff.sc(k), m))  # design box -> viewBox
 
-    def P(d, m=aff.I):
-        return place(d, S(m))
+    def P(d, m=aff.I, nd=3):
+        return place(d, S(m), nd)
 
     U = lambda x, y: (x * k + ox, y * k + oy)  # a design-box point in user space
 
@@ -209,6 +209,12 @@ def mk(a):
     if pl == "tiny":
         donor_d = P(od, aff.mul(aff.tr(2, 2), aff.sc(0.03)))
         copy_d = P(od, aff.mul(aff.tr(20, 10), aff.sc(1.3)))
+    elif pl == "tinycopy":
+        # the reverse: a large donor and a copy 45 times smaller that sits near the font-space origin. With a
+        # user-space gradient on the copy the compensating inverse scales the gradient's geometry past int16, so
+        # nanoemoji has to carry it in a wrapping transform instead (the OverflowError route of write_font)
+        donor_d = P(od, aff.mul(aff.tr(2, 2), aff.sc(1.8)))
+        copy_d = P(od, aff.mul(aff.tr(12, 76), aff.sc(0.04)), nd=5)
     else:
         copy_d = P(od, PL[pl])
         if pl in ("near", "off05", "far"):
